@@ -13,7 +13,13 @@ import (
 )
 
 func init() {
-	core.Register(core.Check{ID: "C05", Level: "exploration", Run: func(c *core.Ctx) { runC05(c); historyPass(c, "C05"); reentrancyPass(c, "C05"); arch386Pass(c, "C05") }})
+	core.Register(core.Check{ID: "C05", Level: "exploration", Run: func(c *core.Ctx) {
+		waitArch := background(func() { arch386Pass(c, "C05") })
+		runC05(c)
+		historyPass(c, "C05")
+		reentrancyPass(c, "C05")
+		waitArch()
+	}})
 }
 
 type c05case struct {
